@@ -247,7 +247,10 @@ func (w *world) mappings() []*models.PortMapping {
 }
 
 // indexEntries returns the mapping ids listed in a client's mapping index.
-func (w *world) indexEntries(clientID int64) []string {
+func (w *world) indexEntries(clientID int64) []string { return w.indexEntriesFor(clientID, "") }
+
+// indexEntriesFor: only entries whose mapping listens at addr ("" = all).
+func (w *world) indexEntriesFor(clientID int64, addr string) []string {
 	l, err := w.cache.Raw().GetList(fmt.Sprintf("%s%d", clientIdxPfx, clientID))
 	if err != nil {
 		return nil
@@ -256,7 +259,7 @@ func (w *world) indexEntries(clientID int64) []string {
 	for _, it := range l {
 		s, _ := it.(string)
 		var m models.PortMapping
-		if json.Unmarshal([]byte(s), &m) == nil {
+		if json.Unmarshal([]byte(s), &m) == nil && (addr == "" || m.ListenAddress == addr) {
 			ids = append(ids, m.ID)
 		}
 	}
